@@ -11,53 +11,114 @@ handled with the base-code model in `Props/C03`).
 namespace Convergen.Props.C13
 open Convergen
 
-/-- `LookupPath` characterised by membership when the names are pairwise distinct -/
-theorem lookupPath_of_mem (m : List (String × String)) (hnd : (m.map (·.2)).Nodup) (p name : String)
-    (hmem : (p, name) ∈ m) : lookupPath m name = some p := by
-  unfold lookupPath
-  induction m with
-  | nil => cases hmem
-  | cons e rest ih =>
-    simp only [List.map_cons, List.nodup_cons] at hnd
-    simp only [List.mem_cons] at hmem
-    rcases hmem with h | h
-    · subst h; simp [List.find?]
-    · have hne : e.2 ≠ name := by
-        intro he
-        apply hnd.1
-        rw [he]
-        exact List.mem_map.mpr ⟨(p, name), h, rfl⟩
-      have : (e.2 == name) = false := by simpa using hne
-      simp only [List.find?, this]
-      exact ih hnd.2 h
+/-- the least path is a member and a lower bound -/
+theorem leastPath_spec (l : List String) (p : String) (h : leastPath l = some p) :
+    p ∈ l ∧ ∀ q ∈ l, p ≤ q := by
+  induction l generalizing p with
+  | nil => simp [leastPath] at h
+  | cons a rest ih =>
+    unfold leastPath at h
+    cases hr : leastPath rest with
+    | none =>
+      simp only [hr] at h
+      cases rest with
+      | nil => simp at h; subst h; simp
+      | cons b bs =>
+        exfalso
+        unfold leastPath at hr
+        cases hb : leastPath bs <;> simp only [hb] at hr
+        · cases hr
+        · split at hr <;> cases hr
+    | some q =>
+      simp only [hr] at h
+      obtain ⟨hq, hlb⟩ := ih q hr
+      by_cases hle : a ≤ q
+      · simp only [hle, if_true, Option.some.injEq] at h
+        rw [← h]
+        refine ⟨by simp, fun x hx => ?_⟩
+        rcases List.mem_cons.mp hx with hxa | hx
+        · rw [hxa]; exact String.le_refl _
+        · exact String.le_trans hle (hlb x hx)
+      · simp only [hle, if_false, Option.some.injEq] at h
+        rw [← h]
+        refine ⟨by simp [hq], fun x hx => ?_⟩
+        rcases List.mem_cons.mp hx with hxa | hx
+        · rw [hxa]
+          rcases String.le_total q a with h' | h'
+          · exact h'
+          · exact absurd h' hle
+        · exact hlb x hx
 
-theorem lookupPath_none_of_not_mem (m : List (String × String)) (name : String)
-    (h : ∀ e ∈ m, e.2 ≠ name) : lookupPath m name = none := by
-  unfold lookupPath
-  induction m with
+theorem leastPath_none (l : List String) (h : leastPath l = none) : l = [] := by
+  cases l with
   | nil => rfl
-  | cons e rest ih =>
-    have hne : (e.2 == name) = false := by simpa using h e (by simp)
-    simp only [List.find?, hne]
-    exact ih (fun e' he' => h e' (by simp [he']))
+  | cons a rest =>
+    unfold leastPath at h
+    cases hr : leastPath rest <;> simp only [hr] at h
+    · cases h
+    · split at h <;> cases h
 
-/-- **T13.2 (`LookupPath` does not depend on the map's iteration order)** as long as the names of
-the import map are pairwise distinct. -/
-theorem lookupPath_order_independent (m m' : List (String × String)) (hperm : m.Perm m')
-    (hnd : (m.map (·.2)).Nodup) (name : String) : lookupPath m' name = lookupPath m name := by
-  have hnd' : (m'.map (·.2)).Nodup := (hperm.map (·.2)).nodup_iff.mp hnd
-  by_cases hex : ∃ e ∈ m, e.2 = name
-  · obtain ⟨e, he, hen⟩ := hex
-    have h1 : (e.1, name) ∈ m := by rw [← hen]; exact he
-    rw [lookupPath_of_mem m hnd e.1 name h1, lookupPath_of_mem m' hnd' e.1 name (hperm.mem_iff.mp h1)]
-  · have hno : ∀ e ∈ m, e.2 ≠ name := fun e he hn => hex ⟨e, he, hn⟩
-    rw [lookupPath_none_of_not_mem m name hno,
-        lookupPath_none_of_not_mem m' name (fun e he => hno e (hperm.mem_iff.mpr he))]
+/-- the least path of a list depends on its members only -/
+theorem leastPath_perm (l l' : List String) (hperm : l.Perm l') : leastPath l' = leastPath l := by
+  cases h : leastPath l with
+  | none =>
+    have := leastPath_none l h
+    subst this
+    have : l' = [] := List.Perm.eq_nil (hperm.symm)
+    subst this
+    rfl
+  | some p =>
+    obtain ⟨hp, hlb⟩ := leastPath_spec l p h
+    cases h' : leastPath l' with
+    | none =>
+      have := leastPath_none l' h'
+      subst this
+      have : l = [] := List.Perm.eq_nil hperm
+      subst this
+      cases hp
+    | some p' =>
+      obtain ⟨hp', hlb'⟩ := leastPath_spec l' p' h'
+      have h1 : p ≤ p' := hlb p' (hperm.mem_iff.mpr hp')
+      have h2 : p' ≤ p := hlb' p (hperm.mem_iff.mp hp)
+      rw [String.le_antisymm h1 h2]
 
-/-- witness that the premise is needed: two blank imports with the same last element keep the
-name `_` … and then the answer depends on the order -/
-example : lookupPath [("a/x", "x"), ("b/x", "_"), ("c/x", "_")] "_" = some "b/x" ∧
-    lookupPath [("a/x", "x"), ("c/x", "_"), ("b/x", "_")] "_" = some "c/x" := by decide
+/-- **T13.2 (`LookupPath` does not depend on the map's iteration order)** — whatever the table
+holds, also when two paths bear one name (since `d3453c1`; before, the answer was the first entry
+the iteration met and the theorem needed pairwise distinct names). -/
+theorem lookupPath_order_independent (m m' : List (String × String)) (hperm : m.Perm m') (name : String) :
+    lookupPath m' name = lookupPath m name := by
+  unfold lookupPath
+  split
+  · rfl
+  · exact leastPath_perm _ _ ((hperm.filter _).map _)
+
+/-- the blank name refers to nothing -/
+theorem lookupPath_blank (m : List (String × String)) : lookupPath m "_" = none := by
+  simp [lookupPath]
+
+/-- the answer bears the name -/
+theorem lookupPath_sound (m : List (String × String)) (name p : String) (h : lookupPath m name = some p) :
+    (p, name) ∈ m := by
+  unfold lookupPath at h
+  split at h
+  · cases h
+  · obtain ⟨hp, _⟩ := leastPath_spec _ p h
+    obtain ⟨e, he, rfl⟩ := List.mem_map.mp hp
+    obtain ⟨hm, hn⟩ := List.mem_filter.mp he
+    have : e.2 = name := by simpa using hn
+    rw [← this]
+    exact hm
+
+/-- two paths under one name: both orders give the same answer -/
+example : lookupPath [("a/x", "x"), ("c/x", "x")] "x" = some "a/x" ∧
+    lookupPath [("c/x", "x"), ("a/x", "x")] "x" = some "a/x" := by decide
+
+/-- the late clash (`go-foo` declares `foo`, next to a blank import of `x/foo`): the blank import
+loses the name, `foo` is the unnamed import -/
+example : importNamesOf [{ path := "t7/go-foo", pkgName := "foo" }, { path := "t7/x/foo", alias := "_", pkgName := "foo" }] =
+      [("t7/go-foo", "foo"), ("t7/x/foo", "_")] ∧
+    lookupPath (importNamesOf [{ path := "t7/go-foo", pkgName := "foo" },
+      { path := "t7/x/foo", alias := "_", pkgName := "foo" }]) "foo" = some "t7/go-foo" := by decide
 
 /-- `NewImportNames` itself is order-deterministic: it is a function of the import specs in
 source order (the first blank import whose base name is free gets it) -/
